@@ -550,12 +550,23 @@ static void run_execution(int e)
 		targets(M, 0, -1);
 		int tgt = depth2 ? 1 : 0;
 		dispatch_queue_t q;
-		if (inact) {
+		if (inact && (vrt_rand() & 1)) {
 			/* created inactive on the default target, retargeted before activation (dispatch_set_target_queue) */
 			q = mkq("verif.Q", conc, 1, NULL);
 			X = add_obj(KO_LANE, q, conc ? (int)upcast(q)._dl->dq_width : 1, 1, !conc && !g_after, -1, (int)(vrt_rand() % 3), 2);
 			targets(X, tgt, -1);
 			dispatch_set_target_queue(q, g_o[tgt].ptr); rest();
+		} else if (inact) {
+			/* created inactive directly on its target; sometimes retargeted to the other level before activation */
+			q = mkq("verif.Q", conc, 1, g_o[tgt].ptr);
+			X = add_obj(KO_LANE, q, conc ? (int)upcast(q)._dl->dq_width : 1, 1, !conc && !g_after, tgt, (int)(vrt_rand() % 3), 2);
+			targets(X, tgt, -1);
+			if (vrt_rand() & 1) {
+				int nt = 1 - tgt;
+				targets(X, nt, tgt);
+				dispatch_set_target_queue(q, g_o[nt].ptr); rest();
+				tgt = nt;
+			}
 		} else {
 			q = mkq("verif.Q", conc, 0, g_o[tgt].ptr);
 			X = add_obj(KO_LANE, q, conc ? (int)upcast(q)._dl->dq_width : 1, 0, !conc && !g_after, tgt, (int)(vrt_rand() % 3), 2);
